@@ -86,7 +86,7 @@ BIN = {ast.Add: operator.add, ast.Sub: operator.sub, ast.Mult: operator.mul, ast
 SAFE_BUILTINS: dict[str, Callable] = {
     "len": len, "max": max, "min": min, "ord": ord, "chr": chr, "range": range, "any": any, "all": all, "sorted": sorted,
     "reversed": lambda x: list(reversed(x)), "abs": abs, "int": int, "set": set, "list": list, "tuple": tuple, "bool": bool, "str": str,
-    "frozenset": frozenset, "dict": dict, "hex": hex, "divmod": divmod, "repr": repr, 
+    "frozenset": frozenset, "dict": dict, "hex": hex, "divmod": divmod, "repr": repr, "slice": slice, 
     "enumerate": lambda x, start=0: list(enumerate(x, start)), "zip": lambda *a: list(zip(*a)), "sum": sum,
     "repeat": lambda x, n: [x] * n,  # itertools.repeat with a count
     "chain": lambda *its: [x for it in its for x in it],  # itertools.chain
